@@ -267,6 +267,10 @@ func specMutations() []specMutation {
 			return false
 		}
 		s.Levels = s.Levels[:len(s.Levels)-1]
+		// the harness can only build a ROB over exactly one unit
+		if n := len(s.Levels); n > 0 && s.Levels[n-1].Kind == "rob" && s.Bottom.N != 1 {
+			return false
+		}
 		return true
 	})
 	add("connections.renamed(entity set)", func(s *memsys.AssemblySpec) bool {
